@@ -15,7 +15,7 @@ from ..runner import Outcome, fail, open_features
 from ..strategies import Cfg, Ctx, query_case, leaf, chance
 from ..world import build_entities, enc
 from ..build import build_query, rows_of
-from ..qcheck import reference_rows, compare_sets, case_features, render_query
+from ..qcheck import reference_rows, compare_sets, case_features, render_query, all_vars_selected
 from hypothesis import strategies as st
 
 ID = "C03"
@@ -27,7 +27,7 @@ RULE = ("cases = condition trees over 1-2 variables (negations at any depth) dra
         "compared with the reference rows / their complement in the product. Non-trivial = c has a connective or an "
         "inner negation and its satisfying set is a non-empty proper subset of the product (exhaustive-slice leaves "
         "count when proper); distinct = distinct canonical JSON.")
-BUDGET = {"quick": (4, 350), "thorough": (16, 4000)}
+BUDGET = {"quick": (8, 500), "thorough": (16, 4000)}
 EXHAUSTIVE_NOTE = {"quick": "6 operators x 3 operand layouts + membership/boolean-call/predicate leaves, x 2 datasets x 0..3 negations x 3 spellings",
                    "thorough": "same slice, 4 datasets"}
 ASSUMPTIONS = ["a ResultQuantifier is never negated (Not raises NotImplementedError by design)"]
@@ -37,8 +37,9 @@ def _cfg(tier):
     avoid = open_features()
     return Cfg(nvars=(1, 2), pool=(2, 5), dom=(1, 4), max_product=16,
                profile="falsy" if "falsy_values" not in avoid else "clean", max_depth=3, allow_empty_cond=False,
-               select="all", desc=("entity", "set_of"), force_relate=True, noise=False, dom_kinds=("list",),
-               avoid=frozenset(avoid), earlier_sharing=(1, 5))
+               select="any", desc=("entity", "set_of"), force_relate=True, noise=False, dom_kinds=("list",),
+               avoid=frozenset(avoid), earlier_sharing=(1, 5),
+               extra_templates=("not_and_then_other", "not_and_then_other", "and_left_or_then_other"))
 
 
 @st.composite
@@ -131,6 +132,7 @@ def check(case) -> Outcome:
     feats = case_features(case)
     cond = case["cond"]
     pos, n_sat, n_all = reference_rows(case, objs)
+    multiset = all_vars_selected(case)      # under a projection the complement is compared as a set
     neg, _, _ = reference_rows(case, objs, negate=True)
     proper = 0 < n_sat < n_all
     nontrivial = proper and (bool(case.get("slice")) or A.has_kind(cond, "and", "or", "not"))
@@ -157,14 +159,14 @@ def check(case) -> Outcome:
                 it.close()
             got = rows_of(built, list(built.q.evaluate()))
             again = rows_of(built, list(built.q.evaluate()))
-            if compare_sets(got, again, True):
+            if compare_sets(got, again, multiset):
                 return fail("reevaluation_differs", f"{k} outer negation(s) [{sp}] of {A.r_cond(cond)}: first full "
                                                     f"evaluation {got}, second {again}", nontrivial=nontrivial,
                             classes=classes, features=feats + [f"outer_neg{k}"])
         except Exception as e:
             return fail("exception", f"{k} negation(s) [{sp}]: {type(e).__name__}: {e}", nontrivial=nontrivial,
                         classes=classes, features=feats + [f"outer_neg{k}"])
-        bad = compare_sets(expected, got, True)
+        bad = compare_sets(expected, got, multiset)
         if bad:
             return fail(bad[0], f"{k} outer negation(s) [{sp}] of {A.r_cond(cond)}: {bad[1]}", nontrivial=nontrivial,
                         classes=classes, features=feats + [f"outer_neg{k}"])
